@@ -1,0 +1,1 @@
+//! Verification facade: `value` (feature `verif`).
